@@ -110,7 +110,8 @@ def decObs : V → Option Obs
                   every successful write call of the send loop puts a ping or the frame of an
                   accepted, not yet transmitted request on the wire (so an accepted request is
                   on the wire after at most as many successful writes as frames were accepted
-                  before it).
+                  before it — unless the peer answered it before its turn came, in which case the
+                  repaired send loop drops its frame, C11/F6b).
 
   Nothing is demanded for requests in flight at a deliberate `Close()`. -/
 
